@@ -64,6 +64,7 @@ def subsets(n):
 
 def programs(rng, tier):
     P = Prog()
+    progs_seq = []
     OR_T = lambda: partial_table(rng, (False, True, True, True))
     AND_T = lambda: partial_table(rng, (False, False, False, True))
     for nv in (1, 2, 3):
@@ -182,6 +183,20 @@ def programs(rng, tier):
         else:
             trig = "v" + "".join("1" if str(v) in vs else "0" for v in range(mv))
             P.add(["nested", partial_conn(rng), OR_T() if rng.random() < 0.5 else AND_T(), bdd_sx(x), bdd_sx(y), trig])
+    # a quantifier / nested operator right AFTER a call that gave up early on the same thread (size-limited operator answering
+    # None, dry run over its limit, cmp_implies on incomparable operands): one program = one thread
+    for _ in range(120 if tier == "quick" else 3000):
+        nv = rng.choice([3, 4, 5, 6])
+        a, b, c = (rand_operand(rng, nv, 0.0) for _ in range(3))
+        xs = [x for x in range(nv) if rng.random() < 0.5] or [0]
+        vs = ["L"] + [str(x) for x in xs]
+        first = rng.choice([["binlim", str(rng.choice([0, 1, 2])), partial_table(rng, rng.choice(CONNS)), "$a", "$b"],
+                            ["drybin", str(rng.choice([0, 1])), partial_table(rng, rng.choice(CONNS)), "$a", "$b"],
+                            ["cmp_implies", "$a", "$b"], ["cmp_implies", "$b", "$a"]])
+        second = rng.choice([["exists", "$c", vs], ["for_all", "$c", vs], ["bin_exists", partial_table(rng, rng.choice(CONNS)), "$a", "$c", vs],
+                             ["nested", partial_table(rng, rng.choice(CONNS)), OR_T() if rng.random() < 0.5 else AND_T(), "$b", "$c",
+                              "v" + "".join("1" if x in xs else "0" for x in range(nv))]])
+        progs_seq.append([["a", "id", bdd_sx(a)], ["b", "id", bdd_sx(b)], ["c", "id", bdd_sx(c)], ["g"] + first, ["q"] + second])
     # iterated var_exists equals exists (array equality through the API)
     for _ in range(150 if tier == "quick" else 3000):
         nv = rng.choice([3, 4, 5])
@@ -194,13 +209,13 @@ def programs(rng, tier):
             prev = "s%d" % i
         prog.append(["same", "eq", "$all", "$" + prev])
         P.add_prog(prog)
-    return P.progs
+    return P.progs + progs_seq
 
 
 def judge(st, V):
     cid, call, impl, model, aux = st
-    if call[0] == "id":
-        return
+    if call[0] in ("id", "binlim", "drybin", "cmp_implies"):
+        return          # the calls that give up early in the sequence programs: judged by C05 / C18, here only their after-effects
     if call[0] == "eq":
         V.evaluations += 1
         if impl == "SKIP":
